@@ -28,7 +28,7 @@ META = {
 
 PROFILE = {"n_states": (2, 5), "n_events": (1, 3), "extra_transitions": (1, 5), "p_guard": 0.15,
            "p_validator": 0.0, "p_conv": 0.12, "p_inline": 0.15, "p_deco": 0.05, "providers": ["sm", "model", "l0"],
-           "p_any": 0.1}
+           "p_any": 0.1, "p_internal": 0.5, "p_self": 0.3}
 
 STR_POOL = ['""', '"a"', '"draft"', '"x y"', '"0"', '"None"', '"S0"']
 INT_POOL = ["0", "-1", "1", "2", "10", "-7", "100"]
@@ -129,7 +129,7 @@ def make_case(rng, i):
     driver = rng.choice(["sync", "inloop"]) if spec["any_async"] else "sync"
     # some callbacks write another valid value to the model field while their transition is in flight
     for cid, cb in spec["cbs"].items():
-        if rng.random() < 0.06:
+        if rng.random() < 0.1:
             cb["script"]["write"] = rng.choice(sids)
     return {"scenario": Scenario(spec, steps, driver), "value_of": make_value_of(spec), "kind": kind, "shape": shape}
 
